@@ -512,7 +512,7 @@ class _BooleanExpression(_PatternExpression):
         self.operands = list(operands)
         for arg in self.operands:
             if not hasattr(self, "root_types"):
-                self.root_types = arg.root_types
+                self.root_types = set(arg.root_types)
             elif operator == "AND":
                 self.root_types &= arg.root_types
             else:
